@@ -319,7 +319,8 @@ def desugar_binops(text):
         for i in range(1, len(toks) - 2):
             t = toks[i]
             if t.kind == "punct" and t.text in OPNAMES and toks[i + 1].kind == "punct" and toks[i + 1].text == "&" \
-                    and toks[i + 2].kind == "ident" and (toks[i - 1].kind == "ident" or (toks[i - 1].kind == "close" and toks[i - 1].text == ")")):
+                    and toks[i + 2].kind == "ident" and (toks[i - 1].kind == "ident" or (toks[i - 1].kind == "close" and toks[i - 1].text == ")")
+                                                       or (toks[i - 1].kind == "punct" and toks[i - 1].text == "?" and i >= 2)):
                 # the right operand is an identifier or a field path `a.b.c`; it must end there (no method call / index after it)
                 e = i + 2
                 while e + 2 < len(toks) and toks[e + 1].kind == "punct" and toks[e + 1].text == "." and toks[e + 2].kind == "ident" \
@@ -337,6 +338,9 @@ def desugar_binops(text):
         rev = {c: o for o, c in br.items()}
         j = i - 1
         while True:
+            # postfix `?` (and the `.await` before it) belong to the left operand
+            if toks[j].kind == "punct" and toks[j].text == "?" and j >= 1:
+                j -= 1; continue
             if toks[j].kind == "close" and toks[j].text == ")":
                 j = rev[j]
                 if j - 1 >= 0 and toks[j - 1].kind == "ident" and not (toks[j - 1].text in ("if", "while", "match", "return", "in")):
@@ -759,7 +763,7 @@ def process_fn(repo, glob, fs, log):
             while k < thi - 2:
                 t = toks[k]
                 if t.kind == "punct" and t.text in OPNAMES and toks[k + 1].kind == "punct" and toks[k + 1].text == "&" and toks[k + 2].kind == "ident" \
-                        and (toks[k - 1].kind == "ident" or (toks[k - 1].kind == "close" and toks[k - 1].text == ")")):
+                        and (toks[k - 1].kind == "ident" or (toks[k - 1].kind == "close" and toks[k - 1].text == ")") or (toks[k - 1].kind == "punct" and toks[k - 1].text == "?")):
                     # enclosing statement: back to the previous `=`, `;`, `{` at this nesting level, forward to the next `;`
                     a = k - 1; depth = 0
                     while a > tlo:
